@@ -931,7 +931,9 @@ std::string congruence_trigger(int state, const CGN& g) {
     for (size_t i = 0; i < w.size(); ++i) if (w[i]) { Q v = dot(g.e, WIN[gm.dim][i]); bool h = g.m == 0 ? v == 0 : Q(v / g.m).get_den() == 1;
       if ((f.find('D') != std::string::npos && h) || (f.find('I') != std::string::npos && !h)) {
         const char* tn = k == 1 ? typeid(D1).name() : typeid(D2).name();
-        if (std::string(tn).find("Box") != std::string::npos) return "box_component_alone_answers_unsoundly";
+        std::string ts(tn);
+        if (ts.find("Box") != std::string::npos) return "box_component_alone_answers_unsoundly";
+        if (ts.find("BD_Shape") != std::string::npos || ts.find("Octagonal_Shape") != std::string::npos) return "weakly_relational_component_alone_answers_unsoundly";
         return "none"; } }
   }
   return "none";
